@@ -134,6 +134,45 @@ func runC14(c *Ctx) {
 		}
 	}
 
+	// a "true" result is reached only after every compared field was examined
+	{
+		rAll := c.Rule("compare-no-shortcut", "every return of the constant true in the configuration comparison is reached only after, on every path, each compared field was loaded from both operands (no fast path that declares two configurations equal on partial evidence)")
+		var trueRets []ssa.Instruction
+		for _, ret := range returnsOf(cmp) {
+			if b, ok := ConstBool(ret.Results[0]); ok && b {
+				trueRets = append(trueRets, ret)
+			}
+			// phi of constants
+			if ph, ok := ret.Results[0].(*ssa.Phi); ok {
+				for _, e := range ph.Edges {
+					if b, okb := ConstBool(e); okb && b {
+						trueRets = append(trueRets, ret)
+					}
+				}
+			}
+		}
+		okAll := len(trueRets) > 0
+		var miss string
+		for f := range compared {
+			for _, prm := range []int{0, 1} {
+				ld := p.Deep(Site{Name: "load", Instr: func(in ssa.Instruction) bool {
+					fa, ok := in.(*ssa.FieldAddr)
+					if !ok || fa.X != ssa.Value(cmp.Params[prm]) {
+						return false
+					}
+					st := derefStruct(fa.X.Type())
+					return st != nil && st.Field(fa.Field) == f
+				}})
+				r := MustPrecede(cmp, ld, func(in ssa.Instruction) bool { return isOneOf(in, trueRets) }, nil)
+				if !r.OK {
+					okAll = false
+					miss = f.Name()
+				}
+			}
+		}
+		c.Check(okAll, rAll, p.FuncKey(cmp), FirstPos(p, cmp), "true is returned only after all compared fields were examined", "the comparison can return true without having examined every compared field (e.g. "+miss+"): a changed configuration is judged 'up to date' and the old instance keeps running")
+	}
+
 	// ------------------------------------------------------------------ (2)
 	r2 := c.Rule("compare-transport-stable", "no field compared by == or reflect.DeepEqual has a static type containing an interface type, unless both operands are normalised first")
 	var cn []string
@@ -184,6 +223,27 @@ func runC14(c *Ctx) {
 		lks = append(lks, lkInfo{ifi, found, PathOf(lk.X).HasField(s.FProject), lk})
 	}
 	c.Check(len(lks) == 2, r3, "lookups", FirstPos(p, upd), "two membership tests", fmt.Sprintf("expected one membership test in each direction, found %d", len(lks)))
+	// both scans run unconditionally: every path from the entry to a return passes both iterations
+	for _, dir := range []struct {
+		name  string
+		outer bool // iterating the runner's current project
+	}{{"scan-of-new-project", false}, {"scan-of-current-project", true}} {
+		isScan := func(in ssa.Instruction) bool {
+			rg, ok := in.(*ssa.Range)
+			if !ok || PathOf(rg.X).LastField() != s.FProcesses {
+				return false
+			}
+			return PathOf(rg.X).HasField(s.FProject) == dir.outer
+		}
+		vis := Reach(Entry(upd), isScan, nil)
+		bad := false
+		for in := range vis {
+			if _, isRet := in.(*ssa.Return); isRet {
+				bad = true
+			}
+		}
+		c.Check(!bad, r3, dir.name+":unconditional", FirstPos(p, upd), "the scan is performed on every path", "the "+dir.name+" is skipped under some condition (e.g. only when the process count shrinks): a process replaced by a differently named one is never terminated and stays listed")
+	}
 	isMapInsert := func(in ssa.Instruction) (*ssa.MapUpdate, bool) {
 		mu, ok := in.(*ssa.MapUpdate)
 		if !ok {
@@ -360,6 +420,7 @@ func runC14(c *Ctx) {
 			c.Check(stopDeep.May(sc) && waitDone.May(sc) && p.Deep(s.flagStoreSite()).May(sc), r4, "removal-stops-and-awaits", FirstPos(p, sc), "removal stops without restart and awaits", "the removal used by the update does not stop the old instance without restart and wait for it")
 		}
 	}
+	s.checkRemovalStopsRegistered(c, r4)
 	// unknown process: error without effects
 	{
 		var errRet bool
